@@ -20,7 +20,8 @@ RULE = (
     "fault enumeration on the inbound stream: for one sample frame of every status/answer kind per generation, every single-bit "
     "flip at every bit position of prefix, outer lengths (AT5), covered bytes and check bytes; all double-bit flips within a "
     "32-bit window (thorough: every pair on two frames); bursts of 2..16 bits at every offset with random interior; error patterns "
-    "confined to the two check bytes (swapped, one byte repeated, complemented, constants, random; thorough: all 65535 on one frame); plus seeded "
+    "confined to the two check bytes (swapped, one byte repeated, complemented, constants, random; thorough: all 65535 on one frame); the "
+    "single-bit flips again with the intact original delivered just before (same connection / previous connection of the same socket); plus seeded "
     "random frames / corruptions. Each corruption is one simulated run: [intact A][damaged][intact B] -> FIN -> probe on the "
     "re-established connection. Clause 1 (the function): the console checks every client frame's CRC with a bitwise reference "
     "and, as supporting non-simulation evidence, calculate() is compared with the reference on all 1- and 2-byte strings "
@@ -35,7 +36,7 @@ ASSUMPTIONS = [
     "the two pad bytes of the undocumented AT5 outer header are not 'covered bytes' and are not corrupted",
     "the exhaustive 1..2-byte comparison of calculate() is a plain function comparison, not simulation; the 3-byte enumeration and the induction on length of the property text are not reproduced",
 ]
-PROBES = ["c06.single_bit", "c06.double_bit", "c06.burst", "c06.check_bytes_only", "c06.in_prefix", "c06.in_length", "c06.in_crc", "c06.in_payload", "c06.waited_for_bytes", "c06.function_audit"]
+PROBES = ["c06.single_bit", "c06.double_bit", "c06.burst", "c06.check_bytes_only", "c06.after_intact_original", "c06.in_prefix", "c06.in_length", "c06.in_crc", "c06.in_payload", "c06.waited_for_bytes", "c06.function_audit"]
 EXHAUSTIVE = True
 TRUSTED_BASE = ["ref/crc.py (bitwise CRC-16/MODBUS)", "ref/wire4.py, ref/wire5.py (framing)"]
 
@@ -50,25 +51,33 @@ def _samples(gen: int):
     return [(k, framegen.frame(rng, gen, k, pid=0x21)[0]) for k in kinds]
 
 
-def _scenario(gen: int, kind: str, frame: bytes, bits: list[int], pattern: str, with_neighbours: bool = True, seg=None) -> dict:
+def _scenario(gen: int, kind: str, frame: bytes, bits: list[int], pattern: str, with_neighbours: bool = True, seg=None, history: str = "none") -> dict:
+    """history: what the client has seen before the damaged frame - "none"; "same_before": the very same frame, intact,
+    directly in front of it on the same connection (a console repeats its status frames verbatim); "same_prev_conn": the
+    intact frame on an earlier connection of the same socket object."""
     damaged = bytearray(frame)
     for b in bits:
         damaged[b // 8] ^= 0x80 >> (b % 8)
     rng = random.Random(zlib.crc32(repr((gen, kind, tuple(bits))).encode()))
     a = framegen.frame(rng, gen, "version", pid=0x11)[0] if with_neighbours else b""
+    if history == "same_before":
+        a = a + bytes(frame)
     b2 = framegen.frame(rng, gen, "error_info", pid=0x12)[0] if with_neighbours else b""
     probe = framegen.frame(rng, gen, "version", pid=0x13)[0]
     data = a + bytes(damaged) + b2
+    tl = [{"at": 0.0, "op": "user.open"}]
+    if history == "same_prev_conn":
+        tl += [{"at": 0.25, "op": "console.raw", "hex": bytes(frame).hex()}, {"at": 0.5, "op": "net.fin"}]
+    tl += [
+        {"at": 1.0, "op": "console.raw", "hex": data.hex(), "input": True},
+        {"at": 2.0, "op": "net.fin"},
+        {"at": 6.0, "op": "console.raw", "hex": probe.hex(), "probe": True},
+    ]
     return {
         "gen": gen, "mode": "socket", "knobs": {"latency": 0.0, "seg": seg or {"mode": "whole"}},
-        "timeline": [
-            {"at": 0.0, "op": "user.open"},
-            {"at": 1.0, "op": "console.raw", "hex": data.hex(), "input": True},
-            {"at": 2.0, "op": "net.fin"},
-            {"at": 6.0, "op": "console.raw", "hex": probe.hex(), "probe": True},
-        ],
+        "timeline": tl,
         "end": 8.0,
-        "info": {"kind": kind, "bits": bits, "pattern": pattern, "a_len": len(a), "frame_len": len(frame)},
+        "info": {"kind": kind, "bits": bits, "pattern": pattern, "a_len": len(a), "frame_len": len(frame), "history": history},
     }
 
 
@@ -111,6 +120,10 @@ def enumerated(tier: str):
             # every single-bit flip
             for b in pos:
                 yield _scenario(gen, kind, fr, [b], "single")
+            # the same flips when the client has just accepted the intact original (same header, same check bytes)
+            if i < (3 if tier == "quick" else len(samples)):
+                for b in pos:
+                    yield _scenario(gen, kind, fr, [b], "single", history="same_before" if b % 2 == 0 else "same_prev_conn", with_neighbours=(b % 3 == 0))
             # double-bit flips
             if tier == "thorough" and i < 2:
                 for x in range(len(pos)):
@@ -152,7 +165,7 @@ def generate(rng, index: int, tier: str) -> dict:
         bits = sorted({start, start + blen - 1} | {b for b in range(start + 1, start + blen - 1) if rng.random() < 0.5})
         bits = [b for b in bits if b in set(pos)] or [rng.choice(pos)]
     seg = rng.choice([{"mode": "whole"}, {"mode": "random", "seed": rng.getrandbits(16), "max": 5}])
-    return _scenario(gen, kind, fr, bits, pattern, with_neighbours=rng.random() < 0.7, seg=seg)
+    return _scenario(gen, kind, fr, bits, pattern, with_neighbours=rng.random() < 0.7, seg=seg, history=rng.choice(["none", "none", "same_before", "same_prev_conn"]))
 
 
 _audit_done = {}
@@ -234,6 +247,8 @@ def execute(sc: dict) -> dict:
             probes["c06.in_payload"] = 1
     if verdict == "partial":
         probes["c06.waited_for_bytes"] = 1
+    if info.get("history", "none") != "none":
+        probes["c06.after_intact_original"] = 1
     if len(got) > len(frames):
         V.append(viol("C06.damaged_frame_delivered", {"reference_frames_before_damage": len(frames), "delivered": [m["reading"]["kind"] for m in got],
                                                       "bits": info.get("bits"), "kind": info.get("kind"), "verdict": verdict}, pattern=pattern))
@@ -259,7 +274,7 @@ def execute(sc: dict) -> dict:
     if bad:
         V.append(viol("C06.crc_function", {"strings_checked": n, "mismatch_on": bad}))
     res = common.result(w, V, nontrivial=True, probes=probes)
-    res["shape"] = repr((gen, info.get("kind"), tuple(info.get("bits", [])), bool(info.get("a_len"))))
+    res["shape"] = repr((gen, info.get("kind"), tuple(info.get("bits", [])), bool(info.get("a_len")), info.get("history", "none")))
     # CRC table indices exercised by the frames of this run (reference register walk)
     idx = set()
     for fr in frames:
